@@ -493,7 +493,7 @@ func (env *ExecEnv) split(f *field) []*field {
 		} else {
 			var i int
 			for j, r := range s {
-				if strings.ContainsRune(ifs, r) {
+				if _, w := utf8.DecodeRuneInString(s[j:]); hasChar(ifs, s[j:j+w]) {
 					switch {
 					case unicode.IsSpace(r):
 						// IFS white space
@@ -523,6 +523,20 @@ func (env *ExecEnv) split(f *field) []*field {
 		fields = fields[:len(fields)-1]
 	}
 	return fields
+}
+
+// hasChar reports whether s contains the character c. A byte that is not
+// valid UTF-8 is a character of its own: it is neither U+FFFD nor another
+// such byte.
+func hasChar(s, c string) bool {
+	for s != "" {
+		_, w := utf8.DecodeRuneInString(s)
+		if s[:w] == c {
+			return true
+		}
+		s = s[w:]
+	}
+	return false
 }
 
 // join joins the specified fields into a single field.
